@@ -5,7 +5,8 @@
 From MptV Require Import Base.Mem Cobs.CobsModel.
 Local Open Scope nat_scope.
 
-Inductive sop := SSend (m : list byte) | SPart (m : list byte) | SFin | SWire (n : nat) | SRecv | SDrain.
+Inductive sop := SSend (m : list byte) | SPart (m : list byte) | SFin | SWire (n : nat) | SRecv | SDrain
+  | SPeek (n : nat) (dst : bool).   (* mpt_queue_peek on the reader: no effect on what is delivered *)
 
 Record spec_st := mkss { sent : list (list byte); cur : list byte; open_ : bool }.
 
